@@ -359,9 +359,9 @@ namespace igris
             m_size = n;
         }
 
-        void erase(iterator newend)
+        void erase(iterator pos)
         {
-            m_size = newend - m_data;
+            erase(pos, pos + 1);
         }
 
         void erase(iterator first, iterator last)
